@@ -1,11 +1,13 @@
 import CookModel.Driver.Num
 import CookModel.Driver.Convert
+import CookModel.Driver.Scale
 import CookModel.Driver.Syntax
 /- Registry of line-protocol handlers. One line per area. -/
 namespace Cook.Driver
 def handlers : List (List String → Option String) := [
   handleNum,
   handleConvert,
+  handleScale,
   handleSyntax
 ]
 end Cook.Driver
